@@ -879,6 +879,13 @@ func c19sEnumerate(thorough bool, visit func(tc c19sCase) bool) {
 								continue // HTTP/1.1 can't do full duplex
 							}
 							for _, pad := range pads {
+								if side == "client" && pad == "noise" && limit < 3000 {
+									// With little incompressible data the compressed size of the
+									// response hovers round its uncompressed size and depends on the
+									// (map-iteration) order in which the server echoes the request
+									// headers: not a reproducible case. Large noise is reproducible.
+									continue
+								}
 								for _, k := range ks {
 									positions := []int{0}
 									if side == "server" && c19sIsStream(shape) {
